@@ -179,13 +179,7 @@ theorem next_right_day_havana :
     Matches ⟨1, 1, 2, 2048, 8, 9223372036854775935⟩ havana 1520744400 := by
   decide
 
-/-- Stretch goal of DESIGN §3 (not proved): soundness and minimality on zones whose shifts are
-exactly one hour, happen at whole local hours and never skip a day.  Covered by the tie only. -/
-def next_dst_statement : Prop :=
-  ∀ (s : Sched) (z : Zone) (tn r : Int),
-    (∀ e ∈ z, e.2 % 3600 = 0 ∧ e.1 % 3600 = 0) →
-    (∀ a b, (a, b) ∈ z.zip z.tail → (b.2 - a.2 = 3600 ∨ a.2 - b.2 = 3600)) →
-    next s z tn = .at r →
-    Matches s z r ∧ ∀ u, tn < u * 1000000000 → u < r → ¬ Matches s z u
+/- The DST class of DESIGN §3 (one-hour shifts at whole hours, midnight included) is proved in
+`KitProofs/Props/C04Dst.lean` (`next_dst_hour_zones`, `next_dst_tables`). -/
 
 end Kit.CronSpec
